@@ -7,6 +7,7 @@ mkdir -p work evidence replays
 (cd harness && cargo build --offline --quiet)
 cd spec
 for f in *.tla; do
+  case "$f" in *Proof.tla) continue;; esac   # TLAPS proofs are parsed and checked by tlapm (they import the TLAPS library module)
   tla-sany "$f" > ../work/sany.out 2>&1 || { cat ../work/sany.out; echo "SANY failed on $f"; exit 1; }
 done
 
